@@ -146,6 +146,24 @@ func zooMakers() []zooMaker {
 		return []segment.Segment{inner, cs}, []*model.LSeg{innerL, model.Build(cb)}, [][]uint32{{0}, nil}, true, nil
 	}})
 	out = append(out, zooMerged("middle-all-dropped", false, 0, [][]uint32{nil, {0, 1}, nil}, mix("a", 2, 1), mix("b", 5, 9), mix("c", 1, 4)))
+	// 5b. three inputs whose FIRST and LAST have the same field list while the middle one differs
+	// (no deletions: whether an input is block-copied must be decided per input)
+	sf := func(tag string, names ...string) func() []model.Doc {
+		return func() []model.Doc {
+			var b []model.Doc
+			for i := 0; i < 2; i++ {
+				d := model.Doc{gen.IDField(tag, i)}
+				for _, n := range names {
+					d = append(d, model.Field{N: n, Len: 1, St: true, Val: []byte(fmt.Sprintf("%s-of-%s%d", n, tag, i)), DV: n == "beta", Terms: []model.Term{{T: n + "-term", Freq: 1}}})
+				}
+				b = append(b, d)
+			}
+			return b
+		}
+	}
+	out = append(out, zooMerged("first-last-same-middle-differs", false, 0, nil, sf("a", "alpha"), sf("b", "beta"), sf("c", "alpha")))
+	out = append(out, zooMerged("first-last-same-middle-subset", false, 0, nil, sf("a", "alpha", "beta"), sf("b", "beta"), sf("c", "alpha", "beta")))
+	out = append(out, zooMerged("middle-same-outer-differ", false, 0, nil, sf("a", "alpha"), sf("b", "beta"), sf("c", "beta"), sf("d", "gamma")))
 	// 6. wide field tables
 	wide := func(nf int, long bool) func() []model.Doc {
 		return func() []model.Doc {
